@@ -20,7 +20,7 @@ static std::string itm(const std::string& s) { return "'" + hex(s.data(), s.size
 template<typename T> struct Gen;
 template<> struct Gen<int64_t> { static int64_t make(Rng& r) { return r.range(-1000, 1000); } };
 template<> struct Gen<std::string> {
-  static std::string make(Rng& r) { std::string s; const size_t l = r.chance(0.15) ? 0 : r.below(7); for (size_t i = 0; i < l; ++i) s += static_cast<char>('a' + r.below(26)); return s; }
+  static std::string make(Rng& r) { std::string s; const size_t l = r.chance(0.15) ? 0 : r.below(7); for (size_t i = 0; i < l; ++i) s += static_cast<char>('a' + r.below(26)); return s + long_pad(r); }
 };
 // ------------------------------------------------------------------ var_opt_sketch
 template<typename T> static std::string vo_common(const var_opt_sketch<T>& s) {
